@@ -141,7 +141,8 @@ def _run_case(case, ctx):
         pb, ps = gen.spelled_args(case["pre"])
         earlier = [(os.path.join(d, "pre.sgz"), pb, ps)]
     if route == "numpy":
-        conv.numpy_convert(data, out, bpv, bsarg, earlier=earlier)
+        given = gen.as_layout(data, case.get("mem"))
+        conv.numpy_convert(given, out, bpv, bsarg, earlier=earlier)
         src = data
     elif route in ("segy", "cli"):
         if case.get("prior") is not None:
@@ -208,14 +209,15 @@ def _run_case(case, ctx):
             "labels": [route, f"rate={rate}", "multiblock" if any(n > b for n, b in zip(shape, bs)) else "singleblock",
                        "unaligned" if any(n % 4 for n in shape) else "aligned"] + (["reused-converter"] if earlier else [])
                       + (["after-prior-conversion"] if case.get("prior") is not None else [])
-                      + (["crossline-sorted"] if case.get("sorting") == 1 else [])}
+                      + (["crossline-sorted"] if case.get("sorting") == 1 else [])
+                      + ([f"mem={case['mem']}"] if case.get("mem") not in (None, "C") else [])}
 
 
 @st.composite
 def numpy_cases(draw, settings=None):
     setting = draw(gen.setting_spelled(settings))
     shape = draw(gen.shape3d(setting["blockshape"], max_voxels=500_000))
-    c = {"setting": setting, "shape": list(shape), "values": draw(gen.values_spec)}
+    c = {"setting": setting, "shape": list(shape), "values": draw(gen.values_spec), "mem": draw(st.sampled_from(gen.MEM_LAYOUTS))}
     if draw(st.integers(0, 4)) == 0:
         c["pre"] = draw(gen.setting_spelled())
     return c
